@@ -201,7 +201,8 @@ fn shape_matrix(ver: (u8, u8, u8)) -> Vec<Spec> {
 			s.metadata = if (ci + pi) % 3 == 1 { None } else { Some(gen::gen_meta(&mut rng, 2, 3)) };
 			if spec::gte(v, (3, 3)) {
 				s.gecko_blocks = [0, 1, 3][(ci + pi) % 3];
-				s.gecko_tail = if s.gecko_blocks > 0 { 7 + ci } else { 0 };
+				// every third gecko shape fills its last block exactly (actual size a multiple of 512)
+				s.gecko_tail = if s.gecko_blocks > 0 && pi % 3 != 1 { 7 + ci } else { 0 };
 			}
 			s.ptypes = ports.iter().enumerate().map(|(i, _)| ((i + pi) % 3) as u8).collect();
 			out.push(s);
